@@ -19,6 +19,16 @@ def task_tree_order():
     return Task(w, evaluate.tree, con, name="C19/evaluate.tree[document order]").run()
 
 
+def task_text_content():
+    from pyvc.task import Task
+    from contracts.prelude import make_world
+    from contracts import c19_eval
+    from metapype.eml import evaluate
+    w = make_world()
+    con = c19_eval.install_text_content(w)
+    return Task(w, evaluate.get_text_content, con, name="C19/get_text_content[emptiness]").run()
+
+
 def task_lemma():
     """L-fold-filter (induction over the child index; base and step discharged by z3)"""
     from pyvc.task import TaskResult
@@ -247,6 +257,8 @@ def bounded(tier, seed):
                 p = N("para")
                 p.add_child(N("emphasis", content=words(k)))
                 ab.add_child(p)
+            elif kind == "markdown":
+                ab.add_child(N("markdown", content=words(k) if k else None))
             ds.add_child(ab)
         for kcount in keywords:
             ks = N("keywordSet")
@@ -305,7 +317,7 @@ def bounded(tier, seed):
     for tw in (None, 1, 4, 5, 6):
         for sep in (" ", "  ", "\xa0"):
             cases.append(("title", dict(title_words=tw, tsep=sep)))
-    for ab in (None, ("content", 0), ("content", 19), ("content", 20), ("para", 0), ("para", 19), ("para", 20), ("inline-only", 30)):
+    for ab in (None, ("content", 0), ("content", 19), ("content", 20), ("para", 0), ("para", 19), ("para", 20), ("inline-only", 30), ("markdown", 0), ("markdown", 19), ("markdown", 20)):
         cases.append(("abstract", dict(abstract=ab)))
     for kw in ((), (0,), (4,), (5,), (2, 2), (2, 3)):
         cases.append(("keywords", dict(keywords=kw)))
@@ -333,7 +345,7 @@ def bounded(tier, seed):
             b.failures.append(f)
     for parent in ("connectionDefinition", "designDescription", "maintenance", "methodStep", "procedureStep", "qualityControl", "samplingDescription",
                    "studyExtent", "dataset", None):
-        for variant in ("empty", "content", "para", "empty-para", "inline-only"):
+        for variant in ("empty", "content", "para", "empty-para", "inline-only", "markdown", "markdown-in-section", "para-then-markdown"):
             Node.store.clear()
             d = N("description")
             if variant == "content":
@@ -346,6 +358,17 @@ def bounded(tier, seed):
                 p = N("para")
                 p.add_child(N("emphasis", content="x"))
                 d.add_child(p)
+            elif variant == "markdown":
+                d.add_child(N("markdown", content="x"))
+            elif variant == "markdown-in-section":
+                sec = N("section")
+                sec.add_child(N("markdown", content="x"))
+                d.add_child(sec)
+            elif variant == "para-then-markdown":
+                d.add_child(N("para"))
+                md = N("markdown", content="x")
+                md.add_child(N("emphasis"))
+                d.add_child(md)
             root = d
             if parent is not None:
                 root = N(parent)
@@ -389,6 +412,7 @@ def main(tier, seed):
     # _dataset_rule has ~450 paths: they are partitioned by the decisions 1..4 (abstract present / has text / short / coverage present) over 16 tasks
     specs.append(("props.C19", "task_lemma", {}))
     specs.append(("props.C19", "task_tree_order", {}))
+    specs.append(("props.C19", "task_text_content", {}))
     shards = [("props.C19", "task", {"which": "_dataset_rule", "shard": [1, list(bits)]}) for bits in itertools.product((True, False), repeat=4)]
     results = common.run_tasks(specs, procs=16) + common.run_sharded(shards, "C19._dataset_rule")
     b = bounded(tier, seed)
@@ -401,4 +425,6 @@ def main(tier, seed):
         "word counts are integer comparisons on the uninterpreted functions normalize_text / py_split_count (A-str); get_text_content enters by name",
         "evaluate.tree appends exactly the per-node lists concatenated in document order (ghost warning_owner, unfolded one level; evaluate.node "
         "enters by contract) and keeps earlier entries",
-        "BOUNDED, not proved: get_text_content's collected text"])
+        "get_text_content: proved that the collected text is empty exactly when neither the node nor any para / markdown descendant has content (what the "
+        "description and abstract checks depend on); WHICH text is collected (the word count of an abstract) enters by name only and is exercised by "
+        "the bounded pass"])
